@@ -37,6 +37,7 @@ import (
 	"path/filepath"
 	"strconv"
 	"strings"
+	"sync"
 	"time"
 
 	"github.com/golang-jwt/jwt/v4"
@@ -45,6 +46,7 @@ import (
 	"github.com/zeromicro/go-zero/core/conf"
 	"github.com/zeromicro/go-zero/core/logx"
 	"github.com/zeromicro/go-zero/rest"
+	"github.com/zeromicro/go-zero/rest/chain"
 	"github.com/zeromicro/go-zero/rest/handler"
 	"github.com/zeromicro/go-zero/rest/httpx"
 	"github.com/zeromicro/go-zero/rest/router"
@@ -226,6 +228,8 @@ type Case struct {
 	SGroups []SGroup `json:"sgroups"`
 	SReqs   []SReq   `json:"sreqs"`
 	UseMw   bool     `json:"usemw"`
+	Parallel bool    `json:"parallel"` // srv: all requests concurrently, every handler held until all have arrived
+	Outer   bool     `json:"outer"`    // srv: rest.WithChain with a recording middleware in front of the gates
 	Big     *BigCase `json:"big"` // big: payload sizes for the cryption round trip
 	Natives bool     `json:"natives"` // srv: also switch on the log / trace / prometheus / metrics middlewares in front of the gates
 }
@@ -290,6 +294,10 @@ type SReq struct {
 	// send, verbatim, the X-Content-Security header of the earlier request with this index (same
 	// secret ciphertext, timestamp and signature) with THIS request's method / path / query / body
 	Reuse *int `json:"reuse"`
+	// how the route handler behaves: "" reads the whole body then answers | partial (1 byte, then the rest) |
+	// twice (reads to the end, then reads again: nothing more may come) | late (answers first, reads afterwards)
+	Hb      string `json:"hb"`
+	RStatus int    `json:"rstatus"` // status the handler writes (0: 200)
 }
 
 type Group struct {
@@ -341,6 +349,8 @@ type SReqObs struct {
 	MwRan    bool    `json:"mwran"`
 	Panic    string  `json:"panic,omitempty"`
 	Unstable bool    `json:"unstable,omitempty"`
+	CtxOk    bool    `json:"ctxok"`    // the context the handler saw holds exactly the token's non-registered claims, before and after waiting
+	OuterSt  int     `json:"outerst"`  // status recorded by a middleware OUTSIDE the authentication gates (-1: none installed)
 	JView    *JView  `json:"jwtview,omitempty"`
 	View     CSView  `json:"view"`
 }
@@ -758,9 +768,11 @@ func runJwt(c Case) []JObs {
 			first = vals[0]
 		}
 		o.View = classify(first, present, c.Secret, c.Prev)
-		keys = append([]string{}, stdClaims...)
+		if len(keys) == 0 {
+			keys = append([]string{}, stdClaims...)
+		}
 		for k := range o.View.Claims {
-			keys = append(keys, k)
+			keys = append(keys, k) // never reset: the claim names of EARLIER tokens are looked for as well
 		}
 		r := httptest.NewRequest(http.MethodGet, "http://localhost/private", nil)
 		setAuth(r, vals)
@@ -1381,6 +1393,41 @@ func buildEngine(c Case, route http.HandlerFunc, o *CSObs) http.Handler {
 type srvCur struct {
 	o *SReqObs
 	q *CSReq
+	// per-request slots, found through the X-Verif-Idx header (requests may run concurrently)
+	mu      sync.Mutex
+	slots   map[string]*srvSlot
+	arrived chan struct{} // parallel mode: one token per request that reached its handler or was answered without it
+	release chan struct{} // parallel mode: closed when every request has arrived
+}
+
+type srvSlot struct {
+	o  *SReqObs
+	q  *CSReq
+	sq *SReq
+}
+
+// allKeys: the claim names of every token sent so far in this case
+func (c *srvCur) allKeys() []string {
+	c.mu.Lock()
+	defer c.mu.Unlock()
+	var ks []string
+	for _, s := range c.slots {
+		if s.o.JView != nil {
+			for k := range s.o.JView.Claims {
+				ks = append(ks, k)
+			}
+		}
+	}
+	return ks
+}
+
+func (c *srvCur) slot(r *http.Request) *srvSlot {
+	c.mu.Lock()
+	defer c.mu.Unlock()
+	if s, ok := c.slots[r.Header.Get("X-Verif-Idx")]; ok {
+		return s
+	}
+	return &srvSlot{o: c.o, q: c.q, sq: &SReq{}}
 }
 
 func buildSrv(c Case, cur *srvCur, so *SrvObs) http.Handler {
@@ -1394,15 +1441,28 @@ func buildSrv(c Case, cur *srvCur, so *SrvObs) http.Handler {
 	}
 	rt := router.NewRouter()
 	opts := []rest.RunOption{rest.WithRouter(rt)}
+	if c.Outer {
+		// a user chain replaces the native middlewares: OUTSIDE the authentication gates; it records the status it sees
+		opts = append(opts, rest.WithChain(chain.New(func(next http.Handler) http.Handler {
+			return http.HandlerFunc(func(w http.ResponseWriter, r *http.Request) {
+				sw := &statusWriter{ResponseWriter: w}
+				next.ServeHTTP(sw, r)
+				if sw.status == 0 {
+					sw.status = http.StatusOK
+				}
+				cur.slot(r).o.OuterSt = sw.status
+			})
+		})))
+	}
 	if c.UaCb {
 		opts = append(opts, rest.WithUnauthorizedCallback(func(w http.ResponseWriter, r *http.Request, err error) {
-			cur.o.UErr = errCode(err)
+			cur.slot(r).o.UErr = errCode(err)
 		}))
 	}
 	if c.UsCb {
 		opts = append(opts, rest.WithUnsignedCallback(func(w http.ResponseWriter, r *http.Request, next http.Handler,
 			strict bool, code int) {
-			cur.o.UsCode = code
+			cur.slot(r).o.UsCode = code
 			if strict {
 				w.WriteHeader(http.StatusForbidden)
 			} else {
@@ -1418,7 +1478,7 @@ func buildSrv(c Case, cur *srvCur, so *SrvObs) http.Handler {
 	if c.UseMw {
 		srv.Use(func(next http.HandlerFunc) http.HandlerFunc {
 			return func(w http.ResponseWriter, r *http.Request) {
-				cur.o.MwRan = true
+				cur.slot(r).o.MwRan = true
 				next(w, r)
 			}
 		})
@@ -1449,17 +1509,63 @@ func buildSrv(c Case, cur *srvCur, so *SrvObs) http.Handler {
 			}
 		}
 		var routes []rest.Route
+		hasJwt := g.Jwt != nil
 		for _, mp := range g.Routes {
 			label := mp[0] + " " + mp[1]
 			routes = append(routes, rest.Route{Method: mp[0], Path: mp[1], Handler: func(w http.ResponseWriter, r *http.Request) {
-				cur.o.Ran = true
-				cur.o.RanRoute = label
-				b, _ := io.ReadAll(r.Body)
-				cur.o.Seen = hex.EncodeToString(b)
-				w.WriteHeader(http.StatusOK)
-				if cur.q.Resp != "" {
-					w.Write(latin(cur.q.Resp))
+				sl := cur.slot(r)
+				o, q := sl.o, sl.q
+				o.Ran = true
+				o.RanRoute = label
+				ctx1 := ctxClaimsOk(r, o.JView, hasJwt, cur.allKeys()...)
+				status := sl.sq.RStatus
+				if status == 0 {
+					status = http.StatusOK
 				}
+				answer := func() {
+					w.WriteHeader(status)
+					if q.Resp != "" && status != http.StatusNoContent && status != http.StatusNotModified {
+						w.Write(latin(q.Resp))
+					}
+				}
+				var got []byte
+				switch {
+				case cur.release != nil:
+					// parallel mode: read half, let every other request be served, read the rest
+					first := make([]byte, 0, 64)
+					buf := make([]byte, 7)
+					n, _ := io.ReadFull(r.Body, buf)
+					first = append(first, buf[:n]...)
+					cur.arrived <- struct{}{}
+					select {
+					case <-cur.release:
+					case <-time.After(10 * time.Second):
+						o.Panic = "harness: barrier timeout"
+					}
+					rest, _ := io.ReadAll(r.Body)
+					got = append(first, rest...)
+					answer()
+				case sl.sq.Hb == "partial":
+					one := make([]byte, 1)
+					n, _ := io.ReadFull(r.Body, one)
+					rest, _ := io.ReadAll(r.Body)
+					got = append(one[:n], rest...)
+					answer()
+				case sl.sq.Hb == "twice":
+					got, _ = io.ReadAll(r.Body)
+					if again, _ := io.ReadAll(r.Body); len(again) != 0 {
+						got = append(got, again...) // would show as a body that is not the plaintext
+					}
+					answer()
+				case sl.sq.Hb == "late":
+					answer()
+					got, _ = io.ReadAll(r.Body)
+				default:
+					got, _ = io.ReadAll(r.Body)
+					answer()
+				}
+				o.Seen = hex.EncodeToString(got)
+				o.CtxOk = ctx1 && ctxClaimsOk(r, o.JView, hasJwt, cur.allKeys()...)
 			}})
 		}
 		srv.AddRoutes(routes, ropts...)
@@ -1515,6 +1621,62 @@ func reuseHeader(b, prev built, q CSReq, now int64) built {
 	return b
 }
 
+type statusWriter struct {
+	http.ResponseWriter
+	status int
+}
+
+func (w *statusWriter) WriteHeader(code int) {
+	if w.status == 0 {
+		w.status = code
+	}
+	w.ResponseWriter.WriteHeader(code)
+}
+
+func (w *statusWriter) Write(p []byte) (int, error) {
+	if w.status == 0 {
+		w.status = http.StatusOK
+	}
+	return w.ResponseWriter.Write(p)
+}
+
+func (w *statusWriter) Flush() {
+	if f, ok := w.ResponseWriter.(http.Flusher); ok {
+		f.Flush()
+	}
+}
+
+// ctxClaimsOk: the request context holds exactly the non-registered, non-null claims of the token (none at all
+// on a route without the JWT option), as the harness's own classification of the token reads them
+func ctxClaimsOk(r *http.Request, jv *JView, hasJwt bool, others ...string) bool {
+	if jv == nil {
+		jv = &JView{}
+	}
+	// nothing of ANOTHER request's token may be there
+	for _, k := range others {
+		if _, own := jv.Claims[k]; !own && r.Context().Value(k) != nil {
+			return false
+		}
+	}
+	for k, want := range jv.Claims {
+		got := r.Context().Value(k)
+		std := false
+		for _, s := range stdClaims {
+			std = std || s == k
+		}
+		if !hasJwt || std || want == "null" {
+			if got != nil {
+				return false
+			}
+			continue
+		}
+		if got == nil || canon(got) != want {
+			return false
+		}
+	}
+	return true
+}
+
 func runSrv(c Case) *SrvObs {
 	so := &SrvObs{}
 	cur := &srvCur{}
@@ -1529,26 +1691,26 @@ func runSrv(c Case) *SrvObs {
 	}
 	// a first observation slot for anything that happens while binding
 	cur.o, cur.q = &SReqObs{}, &CSReq{}
+	cur.slots = map[string]*srvSlot{}
 	h := buildSrv(c, cur, so)
 	var builts []built
-	for i := range c.SReqs {
-		sq := c.SReqs[i]
-		o := SReqObs{UErr: 0, UsCode: -1}
+	obs := make([]*SReqObs, len(c.SReqs))
+	prep := func(i int, n0 int64) *http.Request {
+		sq := &c.SReqs[i]
+		o := &SReqObs{UErr: 0, UsCode: -1, OuterSt: -1, CtxOk: true}
 		if !c.UaCb {
 			o.UErr = -9
 		}
-		cur.o, cur.q = &o, &sq.CS
-		// content security reads time.Now(): start early in a wall-clock second, check afterwards
-		if ns := time.Now().Nanosecond(); ns > 750_000_000 {
-			time.Sleep(time.Duration(1_000_000_000-ns) + time.Millisecond)
-		}
-		n0 := time.Now().Unix()
+		obs[i] = o
 		b := buildCSReq(sq.CS, nil, n0)
 		if sq.Reuse != nil && *sq.Reuse < len(builts) {
 			b = reuseHeader(b, builts[*sq.Reuse], sq.CS, n0)
 		}
 		builts = append(builts, b)
+		o.View = b.view
 		r := b.requestFor(sq.CS)
+		idx := strconv.Itoa(i)
+		r.Header.Set("X-Verif-Idx", idx)
 		if sq.J != nil {
 			jq := *sq.J
 			jnow := jq.Now
@@ -1562,15 +1724,72 @@ func runSrv(c Case) *SrvObs {
 			jv := classify(first, present, "", "", secrets...)
 			o.JView = &jv
 		}
-		rec, p := serve(h, r)
+		cur.mu.Lock()
+		cur.slots[idx] = &srvSlot{o: o, q: &sq.CS, sq: sq}
+		cur.mu.Unlock()
+		return r
+	}
+	finish := func(i int, rec *httptest.ResponseRecorder, p string, n0 int64) {
+		o := obs[i]
 		o.Unstable = time.Now().Unix() != n0
-		o.Status, o.Panic, o.RespRaw = rec.Code, p, hex.EncodeToString(rec.Body.Bytes())
+		if p != "" {
+			o.Panic = p
+		}
+		o.Status, o.RespRaw = rec.Code, hex.EncodeToString(rec.Body.Bytes())
 		if dec, err := base64.StdEncoding.DecodeString(string(rec.Body.Bytes())); err == nil {
 			sd := hex.EncodeToString(dec)
 			o.RespDec = &sd
 		}
-		o.View = b.view
-		so.Reqs = append(so.Reqs, o)
+	}
+	early := func() int64 {
+		// content security reads time.Now(): start early in a wall-clock second, check afterwards
+		if ns := time.Now().Nanosecond(); ns > 750_000_000 {
+			time.Sleep(time.Duration(1_000_000_000-ns) + time.Millisecond)
+		}
+		return time.Now().Unix()
+	}
+	if c.Parallel {
+		// ALL requests at once through the one server: every handler that is reached reads part of its body and is
+		// held until every other request has been answered or has reached its handler too; only then do they go on
+		n0 := early()
+		reqs := make([]*http.Request, len(c.SReqs))
+		for i := range c.SReqs {
+			reqs[i] = prep(i, n0) // one JWT clock for all: the generator gives every token of the case the same "now"
+		}
+		cur.arrived = make(chan struct{}, len(reqs))
+		cur.release = make(chan struct{})
+		var wg sync.WaitGroup
+		for i := range reqs {
+			wg.Add(1)
+			go func(i int) {
+				defer wg.Done()
+				rec, p := serve(h, reqs[i])
+				if !obs[i].Ran {
+					cur.arrived <- struct{}{}
+				}
+				finish(i, rec, p, n0)
+			}(i)
+		}
+		go func() {
+			for range reqs {
+				select {
+				case <-cur.arrived:
+				case <-time.After(10 * time.Second):
+				}
+			}
+			close(cur.release)
+		}()
+		wg.Wait()
+	} else {
+		for i := range c.SReqs {
+			n0 := early()
+			r := prep(i, n0)
+			rec, p := serve(h, r)
+			finish(i, rec, p, n0)
+		}
+	}
+	for _, o := range obs {
+		so.Reqs = append(so.Reqs, *o)
 	}
 	jwt.TimeFunc = time.Now
 	return so
